@@ -21,6 +21,7 @@ QUICK = {
     'deps': ['plain', 'required', 'alias'],
     'onerr': ['plain', 'policy', 'required', 'defaults'],
     'defer': ['plain', 'defaults', 'required'],
+    'depio': ['plain', 'required'],
     'mix': [g for g in GROUPS if g != 'params'],
 }
 
